@@ -113,10 +113,14 @@ structure Table where
   trainClears : Bool → Bool → Bool
   /-- `Module._load_from_state_dict` calls `_clear_cache()` unconditionally -/
   loadClears : Bool
-  /-- clearing statements reached unconditionally by `ExactGP.set_train_data` -/
-  setTrainData : List Effect
+  /-- clearing statements `ExactGP.set_train_data` reaches, as a function of which arguments are given
+      (`inputs is not None`, `targets is not None`) -/
+  setTrainData : Bool → Bool → List Effect
   /-- `_VariationalStrategy.__call__`: does `_clear_cache()` run?  arguments: `self.training`, `prior` -/
   varCallClears : Bool → Bool → Bool
+  /-- the legacy block of `VariationalStrategy.__call__` (re-whitening of parameters loaded from an old-format
+      state dict, i.e. one without `updated_strategy`) ends with `clear_cache_hook(self)` -/
+  legacyConversionClears : Bool
   /-- `ExactGP.__call__` builds the strategy only `if self.prediction_strategy is None` -/
   strategyGuardedByIsNone : Bool
   /-- … `or self._strategy_lazily_evaluated != settings.lazily_evaluate_kernels.on()`: a strategy built under the
@@ -157,12 +161,14 @@ def Kind.isExact : Kind → Bool
   | .exact | .kiss | .sgpr => true
   | _ => false
 
-/-- settings cells of a prediction: six exact-path cells, and two *accuracy-degrading* cells whose own output is
+/-- settings cells of a prediction: eight exact-path cells, and two *accuracy-degrading* cells whose own output is
 not part of the property but which fill caches like their exact counterparts:
 `degradedRoot` = `fast_pred_var(num_probe_vectors=1)` + `max_cholesky_size(0)` + `max_root_decomposition_size(2)`
 (a truncated Lanczos root in `covar_cache`), `degradedCG` = `max_cholesky_size(0)` + CG stopped after two iterations. -/
 inductive Cell where
   | default | fastPredVar | eagerKernels | cg | noDetach | skipVar | degradedRoot | degradedCG
+  | lazyJoint     -- `max_eager_kernel_size(0)`: the joint covariance is sliced lazily (exact path, reads as default)
+  | traceMode     -- `trace_mode(True)`: generic kernel path, dense assembly in the variational strategy (exact path)
   deriving DecidableEq, Repr
 
 /-- `settings.fast_pred_var.on()` -/
@@ -195,12 +201,15 @@ structure State where
   stratDefault : Bool
   /-- `lazily_evaluate_kernels` was on when the live strategy object was built -/
   stratLazy : Bool
+  /-- `updated_strategy` is False: the parameters came from an old-format state dict and the next non-prior call
+      of the (whitened) variational strategy re-whitens them first -/
+  pendingConversion : Bool
   store : Store
 
 /-- a freshly constructed model (training mode, no caches) holding parameters `pv` and data `dv` -/
 def fresh (k : Kind) (pv dv : Nat) : State :=
   { kind := k, training := true, hasData := true, pv := pv, dv := dv, stratDefault := k == .exact, stratLazy := true,
-    store := fun _ => none }
+    pendingConversion := false, store := fun _ => none }
 
 def init (k : Kind) : State := fresh k 0 0
 
@@ -347,6 +356,22 @@ def callVar (T : Table) (s : State) (c : Cell) : State × Answer :=
   let st1 := touchAll st0 (fun _ => newEntry s false) reads
   ({ s with store := st1 }, ⟨true, varClass s.kind, s.pv, s.dv, usedOf s st1 reads⟩)
 
+/-- does the next non-prior call start with the legacy re-whitening block? -/
+def State.converts (s : State) : Bool := s.pendingConversion && s.kind == .svgp
+
+/-- The legacy block of `VariationalStrategy.__call__`: reads `variational_distribution` and `_cholesky_factor`
+(memoised, from the parameters as loaded), rewrites the variational parameters in whitened form — a parameter
+change inside the call — and, if the source says so, empties the memo table. -/
+def convert (T : Table) (s : State) : State :=
+  if s.converts then
+    let st := touchAll s.store (fun _ => newEntry s false) [sChol, sVarDist]
+    { s with pv := s.pv + 1, pendingConversion := false,
+             store := if T.legacyConversionClears then clearBy [.clearMemo] st else st }
+  else s
+
+/-- the parameter version a call answers from -/
+def callPv (s : State) (prior : Bool) : Nat := if !s.kind.isExact && !prior && s.converts then s.pv + 1 else s.pv
+
 /-- A call `model(x)` under settings cell `c` (`prior = true`: prior-mode call).  Returns the state after the
 call and the description of what the answer was computed from. -/
 def call (T : Table) (s : State) (c : Cell) (prior : Bool) : State × Answer :=
@@ -356,7 +381,7 @@ def call (T : Table) (s : State) (c : Cell) (prior : Bool) : State × Answer :=
     else callPosterior T s c
   else
     if prior then (s, ⟨false, cModule, s.pv, s.dv, []⟩)
-    else callVar T s c
+    else callVar T (convert T s) c
 
 /-! ### Operations -/
 
@@ -368,14 +393,29 @@ inductive FantasyOutcome where
   | rejectedLate      -- raised after the source was restored (`NotImplementedError` of the strategy)
   deriving DecidableEq, Repr
 
+/-- which arguments `set_train_data` is given -/
+inductive DataArgs where
+  | both | targetsOnly | inputsOnly
+  deriving DecidableEq, Repr
+
+def DataArgs.inputs : DataArgs → Bool
+  | .targetsOnly => false
+  | _ => true
+
+def DataArgs.targets : DataArgs → Bool
+  | .inputsOnly => false
+  | _ => true
+
+def DataArgs.all : List DataArgs := [.both, .targetsOnly, .inputsOnly]
+
 inductive Op where
   | predict (c : Cell)
   | priorPredict
   | train
   | eval
   | step
-  | setTrainData
-  | loadStateDict
+  | setTrainData (a : DataArgs)
+  | loadStateDict (oldFormat : Bool)
   | fantasy (o : FantasyOutcome)
   | backward
   deriving DecidableEq, Repr
@@ -412,6 +452,7 @@ def fantasyModel (s : State) : State :=
     hasData := true, pv := s.pv, dv := s.dv + 1,
     stratDefault := if s.kind.isExact then s.stratDefault else true,
     stratLazy := if s.kind.isExact then s.stratLazy else true,
+    pendingConversion := false,
     store := fun sl =>
       if sl == sStrat then some e
       else if wiski then (if sl == sInterpInner || sl == sInterpResp then some e else none)
@@ -428,12 +469,14 @@ def step (T : Table) (s : State) : Op → Out
         let s1 := (call T s .default false).1           -- forward pass of the objective
         { next := { s1 with pv := s1.pv + 1 } }
       else { next := s }
-  | .setTrainData =>
+  | .setTrainData a =>
       if s.kind.isExact then
-        { next := { s with dv := s.dv + 1, hasData := true, store := clearBy T.setTrainData s.store } }
+        { next := { s with dv := s.dv + 1, hasData := true,
+                           store := clearBy (T.setTrainData a.inputs a.targets) s.store } }
       else { next := s }
-  | .loadStateDict =>
-      { next := { s with pv := s.pv + 1,
+  | .loadStateDict old =>
+      -- `old`: a state dict written before `updated_strategy` existed (the pre-hook then sets the flag to False)
+      { next := { s with pv := s.pv + 1, pendingConversion := old && s.kind == .svgp,
                          store := if T.loadClears then clearBy (allClearEffects T s.kind) s.store else s.store } }
   | .fantasy .ok =>
       if fantasyAccepts T s then
@@ -470,7 +513,7 @@ def run (T : Table) : State → List Op → State × List Answer
 
 /-- the model a user would build from scratch with the same parameters, data and mode -/
 def State.rebuilt (s : State) : State :=
-  { fresh s.kind s.pv s.dv with training := s.training }
+  { fresh s.kind s.pv s.dv with training := s.training, pendingConversion := s.pendingConversion }
 
 /-- every entry the answer used was computed from the parameters and data current at the call -/
 def Answer.current (a : Answer) : Bool :=
